@@ -18,6 +18,8 @@ import JsonV.Lemmas.EncIff
 import JsonV.Lemmas.EncValue
 import JsonV.Lemmas.EncRaw
 import JsonV.Lemmas.EncOps
+import JsonV.Lemmas.EncValid
+import JsonV.Props.C01
 import JsonV.Spec.Names
 import JsonV.Model.Validate
 import JsonV.Gen.Straight
@@ -385,15 +387,60 @@ theorem wv_as_tokens (o : Opts) (cs : List Call) (e e1 e2 : Enc) (v : Bytes)
       exact this
     simp [this]
 
-/-- FULL STATEMENT, not proved (validated by the `enc valid` cross-check of the harness between the two
-Lean models and by predicate (ii) against an independent Go parser): the encoder's validator
-`reformatValue` and the decoder-side validator of slice C01 (`Model/Validate.lean`, proved sound for the
-grammar in Props/C01 `valid_sound`) accept the same texts.  With it, `wv_ok_iff` reads "v is one valid JSON
-value under the options". -/
-def reformat_valid_full : Prop :=
-  ∀ (o : Opts) (v : Bytes), o.maxDepth = JsonV.Model.Validate.maxNestingDepth →
+/-! ### The encoder's validator and the grammar -/
+
+/-- **`reformatValue` accepts exactly the JSON texts** of the grammar selected by the options
+(RFC 8259 with nesting ≤ 10000; strict UTF-8 and paired surrogate escapes unless AllowInvalidUTF8; member
+names pairwise different after unescaping unless AllowDuplicateNames — `Spec/Grammar.lean`), i.e. exactly the
+texts that slice C01's decoder-side validator `Value.IsValid` accepts (`Props/C01.valid_iff`).  Proved by two
+simulations between the encoder model and the validator model (Lemmas/EncValid.lean), then C01's soundness
+and completeness for the grammar. -/
+theorem reformat_valid (o : Opts) (hmax : o.maxDepth = JsonV.Model.Validate.maxNestingDepth) (v : Bytes) :
     ((∃ out rest, reformatValue o (3 * v.length + 4) [] (skipWS v) 1 = .ok (out, rest) ∧ skipWS rest = []) ↔
-      JsonV.Model.Validate.isValid ⟨o.allowInvalidUTF8, o.allowDup⟩ v = true)
+      JsonV.Spec.Grammar.JText (JsonV.Props.C01.gopts (vopts o)) JsonV.Model.Validate.maxNestingDepth
+        (JsonV.Props.C01.nameKey (vopts o)) v) ∧
+    ((∃ out rest, reformatValue o (3 * v.length + 4) [] (skipWS v) 1 = .ok (out, rest) ∧ skipWS rest = []) ↔
+      JsonV.Model.Validate.isValid (vopts o) v = true) := by
+  have h := JsonV.Lemmas.EncValid.reformat_iff_grammar o hmax 0 (Nat.zero_le _) [] v
+  have h1 : (∃ out rest, reformatValue o (3 * v.length + 4) [] (skipWS v) 1 = .ok (out, rest) ∧ skipWS rest = []) ↔
+      JsonV.Spec.Grammar.JText (JsonV.Props.C01.gopts (vopts o)) JsonV.Model.Validate.maxNestingDepth
+        (JsonV.Props.C01.nameKey (vopts o)) v := h
+  exact ⟨h1, h1.trans (JsonV.Props.C01.valid_iff (vopts o) v).symm⟩
+
+/-- **WriteValue succeeds iff the argument is one valid JSON value that may stand here** — the full
+statement, after any accepted script of tokens and raw values: `WriteValue v` succeeds iff
+`v = ws value ws` with `value` a value of the grammar selected by the options whose nesting fits under the
+current depth (`JValue … d value`, `d` = number of open containers), the PDA admits the value's first token
+after the history (a value in name position must be a string; a container must not exceed the depth limit),
+and a raw string in name position denotes a name not yet used in the innermost open object. -/
+theorem wv_ok_iff_grammar (o : Opts) (hmax : o.maxDepth = JsonV.Model.Validate.maxNestingDepth)
+    (cs : List Call) (e : Enc) (v : Bytes) (hlen : 2 * cs.length + 2 < 2^61)
+    (h : runOps (Encoder.new o) cs = some e) :
+    (writeValue e v).2 = none ↔
+      (∃ w1 val w2, JsonV.Spec.Grammar.JWs w1 ∧
+          JsonV.Spec.Grammar.JValue (JsonV.Props.C01.gopts (vopts o)) JsonV.Model.Validate.maxNestingDepth
+            (JsonV.Props.C01.nameKey (vopts o)) e.m.stack.length val ∧
+          JsonV.Spec.Grammar.JWs w2 ∧ v = w1 ++ val ++ w2) ∧
+        Viable o.maxDepth (((histToks o cs).map kindOf) ++ [firstKind (valueKind v)]) ∧
+        (valueKind v = 0x22 → o.allowDup = false → isNamePos (track o (PDA.init, []) (histToks o cs)).1 = true →
+          ∀ out rest, reformatValue o (3 * v.length + 4) (beforeToken e (valueKind v)) (skipWS v) e.m.depth =
+            .ok (out, rest) →
+            unquote (out.drop (beforeToken e (valueKind v)).length) ∉ innermostNames o (histToks o cs)) := by
+  obtain ⟨fs, ns, hI, _, _, _⟩ := runOps_new o cs e (by omega) h
+  have hd : e.m.stack.length ≤ JsonV.Model.Validate.maxNestingDepth := by rw [← hmax]; exact hI.inv.depth
+  have hg := JsonV.Lemmas.EncValid.reformat_iff_grammar o hmax e.m.stack.length hd (beforeToken e (valueKind v)) v
+  rw [wv_ok_iff_hist o cs e v hlen h]
+  have hdep : e.m.depth = e.m.stack.length + 1 := rfl
+  rw [hdep]
+  constructor
+  · rintro ⟨out, rest, hr, hws, hv, hn⟩
+    refine ⟨hg.mp ⟨out, rest, hr, hws⟩, hv, fun hk hdup hpos out' rest' hr' => ?_⟩
+    rw [hr] at hr'
+    simp only [Except.ok.injEq, Prod.mk.injEq] at hr'
+    rw [← hr'.1]; exact hn hk hdup hpos
+  · rintro ⟨hgr, hv, hn⟩
+    obtain ⟨out, rest, hr, hws⟩ := hg.mpr hgr
+    exact ⟨out, rest, hr, hws, hv, fun hk hdup hpos => hn hk hdup hpos out rest hr⟩
 
 end Encoder
 
